@@ -1,3 +1,221 @@
+//! C11 — decoding is independent of arrival order and of surplus shards.
+//! Explicit-state search of the received-set lattice: states are concrete decoder states
+//! (verif_digest), transitions add one shard not yet given. Every order of every subset is covered
+//! because every path of the lattice is a transition sequence of the search; if all orders of a set
+//! lead to the same concrete state the search closes with exactly 2^n states. Every state holding at
+//! least k shards is decoded and compared with the originals.
+use std::collections::HashMap;
+
+use crate::core::*;
+use crate::json::J;
+use crate::kv::*;
 use crate::report::*;
-pub fn run(_ctx: &Ctx, rep: &mut Report) { rep.machinery_errors.push("not implemented".into()); }
-pub fn replay(_ctx: &Ctx, _case: &str) -> Result<(), String> { Err("not implemented".into()) }
+use crate::rt::*;
+use crate::with_engine;
+
+type V = (String, String);
+
+fn soil_opt(soil: u64) -> Option<u64> {
+    if soil == 0 {
+        None
+    } else {
+        Some(soil)
+    }
+}
+
+/// add shards in `order` to a fresh (soiled) decoder; returns digest, or the failure
+fn digest_after(g: &Group, order: &[usize]) -> Result<u64, String> {
+    let res = guard(|| -> Result<u64, reed_solomon_simd::Error> {
+        let kind = codec_kind(&g.codec);
+        with_engine!(g.eng.as_str(), E => {
+            let mut dec = make_decoder::<E>(kind, g.k, g.r, g.bytes, soil_opt(g.soil))?;
+            for &s in order {
+                if s < g.k { dec.add_original(s, &g.originals[s])?; } else { dec.add_recovery(s - g.k, &g.recovery[s - g.k])?; }
+            }
+            Ok(dec.digest())
+        })
+    });
+    match res {
+        Ok(Ok(d)) => Ok(d),
+        Ok(Err(e)) => Err(format!("Err({e:?})")),
+        Err(p) => Err(format!("PANIC: {p}")),
+    }
+}
+
+fn check_order(g: &Group, order: &[usize]) -> Result<(), V> {
+    let og: Vec<usize> = order.iter().copied().filter(|s| *s < g.k).collect();
+    let m = g.decode(&[], &[], Some(order)).map_err(|e| (format!("decode Ok after adds in order {}", fmt_list(order)), e))?;
+    g.check_restored(&og, &m).map_err(|e| (format!("restored == originals not given (order {})", fmt_list(order)), e))
+}
+
+pub fn replay(_ctx: &Ctx, case: &str) -> Result<(), String> {
+    let kv = Kv::parse(case)?;
+    let g = Group::from_kv(&kv).map_err(|e| format!("encode failed: {e}"))?;
+    let order = kv.list("order");
+    if kv.opt("addonly").is_some() {
+        return digest_after(&g, &order).map(|_| ()).map_err(|e| format!("expected every add of a not-yet-given shard to succeed; observed {e}"));
+    }
+    check_order(&g, &order).map_err(|(e, o)| format!("expected {e}; observed {o}"))
+}
+
+struct Out {
+    states: u64,
+    transitions: u64,
+    decodes: u64,
+    nontrivial: u64,
+    closed_exact: bool,
+    viols: Vec<Violation>,
+    sample: Option<String>,
+}
+
+fn explore_group(g: &Group, full_perms: bool) -> Out {
+    let n = g.k + g.r;
+    let mut out = Out { states: 0, transitions: 0, decodes: 0, nontrivial: 0, closed_exact: true, viols: Vec::new(), sample: None };
+    let case = |order: &[usize]| g.kv().with("order", fmt_list(order)).dump();
+    let key = |order: &[usize]| format!("{}-{}-k{}r{}-order{}", g.codec, g.eng, g.k, g.r, fmt_list(order));
+    // level-synchronous BFS; node = (mask, digest) -> representative order
+    let mut level: HashMap<(u32, u64), Vec<usize>> = HashMap::new();
+    match digest_after(g, &[]) {
+        Ok(d) => {
+            level.insert((0, d), vec![]);
+        }
+        Err(e) => {
+            out.viols.push(Violation { key: key(&[]), case: format!("{} addonly=1", case(&[])), expected: "construction Ok".into(), observed: e });
+            return out;
+        }
+    }
+    let mut all_states: Vec<(u32, Vec<usize>)> = Vec::new();
+    for _depth in 0..=n {
+        let mut next: HashMap<(u32, u64), Vec<usize>> = HashMap::new();
+        for ((mask, _), order) in &level {
+            out.states += 1;
+            all_states.push((*mask, order.clone()));
+            for s in 0..n {
+                if mask >> s & 1 != 0 {
+                    continue;
+                }
+                let mut o2 = order.clone();
+                o2.push(s);
+                out.transitions += 1;
+                match digest_after(g, &o2) {
+                    Ok(d) => {
+                        next.entry((mask | 1 << s, d)).or_insert(o2);
+                    }
+                    Err(e) => out.viols.push(Violation { key: key(&o2), case: format!("{} addonly=1", case(&o2)), expected: format!("add of shard {s} (not given before) Ok"), observed: e }),
+                }
+            }
+        }
+        if next.is_empty() {
+            break;
+        }
+        level = next;
+    }
+    if out.states != 1u64 << n {
+        out.closed_exact = false;
+    }
+    // decode every state with at least k shards
+    for (mask, order) in &all_states {
+        if (mask.count_ones() as usize) < g.k {
+            continue;
+        }
+        out.decodes += 1;
+        let given_o = (mask & ((1u32 << g.k) - 1)).count_ones() as usize;
+        if given_o < g.k && mask >> g.k != 0 {
+            out.nontrivial += 1;
+        }
+        if out.sample.is_none() && order.len() == g.k + 1 && given_o < g.k {
+            out.sample = Some(case(order));
+        }
+        if let Err((exp, obs)) = check_order(g, order) {
+            out.viols.push(Violation { key: key(order), case: case(order), expected: exp, observed: obs });
+        }
+    }
+    // cross-check of the merging argument: all permutations end to end, no merging
+    if full_perms {
+        for mask in subsets_at_least_k(g.k, g.r) {
+            let items: Vec<usize> = (0..n).filter(|s| mask >> s & 1 != 0).collect();
+            let mut perm = items.clone();
+            permute(&mut perm, 0, &mut |p: &[usize]| {
+                out.decodes += 1;
+                out.transitions += p.len() as u64;
+                if let Err((exp, obs)) = check_order(g, p) {
+                    if out.viols.len() < 50 {
+                        out.viols.push(Violation { key: key(p), case: case(p), expected: exp, observed: obs });
+                    }
+                }
+            });
+        }
+    }
+    out
+}
+
+fn permute(a: &mut Vec<usize>, i: usize, f: &mut dyn FnMut(&[usize])) {
+    if i == a.len() {
+        f(a);
+        return;
+    }
+    for j in i..a.len() {
+        a.swap(i, j);
+        permute(a, i + 1, f);
+        a.swap(i, j);
+    }
+}
+
+pub fn run(ctx: &Ctx, rep: &mut Report) {
+    let seed = ctx.seed;
+    let soil = seed | 1;
+    rep.rule = "state = concrete decoder state (verif_digest) reached by adding a set of shards in some order; transition = add_original_shard/add_recovery_shard of a shard not yet given; all paths of the subset lattice are explored (= every order of every subset); every state with >= k shards is decoded and compared with the originals (restored set exactly the originals not given, empty when all are given); non-trivial = decoded states with an original missing and a recovery shard present; distinct by (engine,codec,k,r,concrete state)".into();
+    rep.assume("merging two orders is exact: same verif_digest = same configuration, counters, bitmap and working memory, hence same future behaviour of this deterministic code; different digests are never merged");
+    let (nmax_fast, nmax_all, pmax) = if ctx.thorough() { (10usize, 7usize, 6usize) } else { (7, 5, 5) };
+    let mut specs: Vec<(String, &'static str, usize, usize, bool)> = Vec::new();
+    for k in 1..nmax_fast {
+        for r in 1..nmax_fast {
+            if k + r > nmax_fast {
+                continue;
+            }
+            for eng in engines_all() {
+                let fast = engines_fast().contains(&eng);
+                if !fast && k + r > nmax_all {
+                    continue;
+                }
+                for codec in if eng == "default" { vec!["rs", "def"] } else { vec!["high", "low", "def"] } {
+                    specs.push((eng.to_string(), codec, k, r, k + r <= pmax && (fast || eng == "default")));
+                }
+            }
+        }
+    }
+    rep.bound("lattice", J::s(format!("all (k,r) with k+r <= {nmax_fast} on {:?}, k+r <= {nmax_all} on the other engines; codecs high/low/def (rs/def on the default engine)", engines_fast())));
+    rep.bound("full_permutations", J::s(format!("every permutation of every sufficient subset, unmerged, for k+r <= {pmax}")));
+    let results: Vec<Result<Out, Violation>> = par_for(specs.len(), 1, |i| {
+        let (eng, codec, k, r, perms) = &specs[i];
+        let data = if (k + r) % 2 == 0 { "dense:64" } else { "dense:66" };
+        match build_group(eng, codec, *k, *r, data, soil, seed) {
+            Ok(g) => Ok(explore_group(&g, *perms)),
+            Err(e) => Err(Violation { key: format!("encode-{codec}-{eng}-{k}-{r}"), case: Kv::new().with("eng", eng).with("codec", codec).with("k", k).with("r", r).with("data", data).with("soil", soil).with("seed", seed).with("order", "-").dump(), expected: "encode Ok".into(), observed: e }),
+        }
+    });
+    let mut not_closed = 0u64;
+    for r in results {
+        match r {
+            Err(v) => rep.violation(v),
+            Ok(o) => {
+                rep.states += o.states;
+                rep.transitions += o.transitions;
+                rep.traces += o.decodes;
+                rep.evaluations += o.decodes;
+                rep.distinct += o.nontrivial;
+                if !o.closed_exact {
+                    not_closed += 1;
+                }
+                rep.violations(o.viols);
+                if let Some(s) = o.sample {
+                    if rep.samples.len() < 4 {
+                        rep.sample(s);
+                    }
+                }
+            }
+        }
+    }
+    rep.extra("groups", J::i(specs.len()));
+    rep.extra("groups_where_orders_reach_distinct_concrete_states", J::i(not_closed));
+}
